@@ -509,6 +509,7 @@ func (c *cache) pruneSegments() {
 	for k := range c.segments {
 		keys = append(keys, k)
 	}
+	verifOrderKeys(keys)
 	sort.Slice(keys, func(i, j int) bool {
 		return keys[i].a > keys[j].a
 	})
